@@ -79,6 +79,10 @@ PUnblinded == Len(Ev.hits) = 0
 PSharedBlinding == Len(Ev.hits) = 0
 \* the blinding draws of proofs made on different threads (and one after the other) are all different
 PFresh == Ev.distinct = Ev.draws /\ Ev.draws >= 10
+\* Boudot proof: the randomness of the commitment is split independently on the two sides; with the g-parts
+\* stripped (the witness holder can), the four parts multiply to 1 and no two of them are equal or cancel --
+\* otherwise a product of two proof fields is a function of the hidden value alone (a dictionary attack)
+PRangeSplit == Ev.stripped = 4 /\ Len(Ev.hits) = 0
 
 \* ---- C18 ------------------------------------------------------------------
 PKeyFacts ==
@@ -110,6 +114,7 @@ Pred ==
     [] Ev.op = "CLUnblinded"  -> PUnblinded
     [] Ev.op = "CLSharedBlinding" -> PSharedBlinding
     [] Ev.op = "CLFresh"      -> PFresh
+    [] Ev.op = "CLRangeSplit" -> PRangeSplit
     [] Ev.op = "CLInfoLink"   -> TRUE            \* informational (F11, outside the listed properties)
     [] Ev.op = "CLKeyFacts"   -> PKeyFacts
     [] Ev.op = "CLRandomFacts" -> PRandomFacts
